@@ -141,7 +141,7 @@ func init() {
 			"C08.6 the Addr built from the received source keeps that very net.Addr (or a copy in which every field of the original is carried over) and Raw() returns it, so the write goes to the complete source address (IP, port and zone); " +
 			"C08.7 the buffer handed to PacketConn.ReadFrom has a constant length > 65527 (the largest UDP payload), so the 'datagram filled the buffer' discard can never hit a complete datagram and every query reaches the dispatcher; " +
 			"C08.8 every element store into a net.IP-typed slice in library code targets a slice whose origins are fresh (make / literal / append onto a fresh slice), never a parameter, a field or the result of reslicing one (To4() included) - the IP of the received address is shared by the cached Addr, the raw *net.UDPAddr and the reply's ip field; " +
-			"C08.5 nothing that can reach the socket write is reachable from the non-query branch of the packet processor.",
+			"C08.5 nothing that can reach the socket write is reachable from the non-query branch of the packet processor. C08.12 the source a reply goes to is the address returned by the ReadFrom that delivered the query (shared with C07.6).",
 		NotDecided: "byte-for-byte content of the encoded datagrams (bencode library), 'when send budget allows' (C20).",
 		Rules: []*Rule{
 			{ID: "C08.1", Doc: "reply destination and transaction id are the query's", Floor: 15, Run: c08r1},
@@ -154,6 +154,7 @@ func init() {
 			{ID: "C08.9", Doc: "the transaction id and method answered are those of this datagram: fresh decode target per datagram (shared with C07.7)", Floor: 1, Run: c07r7},
 			{ID: "C08.10", Doc: "a query is never mistaken for a response: the transaction lookup is behind y ≠ q (shared with C07.8)", Floor: 1, Run: c07r8},
 			{ID: "C08.11", Doc: "the bytes of a reply are not shared with a recycled buffer: nothing returned to a sync.Pool is still referenced by a returned slice", Floor: 1, Run: cPoolLifetime},
+			{ID: "C08.12", Doc: "the source address a reply goes to is the one returned by the ReadFrom that delivered the query (payload and source of one read are processed together; shared with C07.6)", Floor: 2, Run: c07r6},
 			{ID: "C08.6", Doc: "the address wrapper hands back the complete address it was built from", Floor: 2, Run: c08r6},
 		},
 	})
